@@ -78,3 +78,47 @@ def build_all(b, nm):
     for u in set(abs(x) for x in refs):
         b.incref(u)
     return refs
+
+
+# ---------------------------------------------------------------------
+# "sweep, perturb, sweep again": a manager with one unused variable `zz`
+# at a given level, all functions of the other variables built and held
+# ---------------------------------------------------------------------
+PERTURBATIONS = ['undeclare_unused', 'declare_new', 'swap_top',
+                 'swap_bottom', 'gc', 'reorder_reverse', 'sift',
+                 'gc_roots_all']
+
+
+def sandwich_manager(order, nm, pos):
+    """Manager ordered as `order` with the unused variable 'zz' inserted
+    at level `pos`; returns (bdd, refs) with every function of `nm`
+    built node by node and held."""
+    full = list(order)
+    full.insert(pos, 'zz')
+    b = new_bdd(full)
+    refs = build_all(b, nm)
+    return b, refs
+
+
+def perturb(b, name):
+    import dd.bdd as _bdd
+    n = len(b.vars)
+    if name == 'undeclare_unused':
+        b.undeclare_vars('zz')
+    elif name == 'declare_new':
+        b.declare('zz_new')
+    elif name == 'swap_top':
+        b.swap(0, 1)
+    elif name == 'swap_bottom':
+        b.swap(n - 2, n - 1)
+    elif name == 'gc':
+        b.collect_garbage()
+    elif name == 'reorder_reverse':
+        order = sorted(b.vars, key=b.vars.get)
+        _bdd.reorder(b, {x: l for l, x in enumerate(reversed(order))})
+    elif name == 'sift':
+        _bdd.reorder(b)
+    elif name == 'gc_roots_all':
+        b.collect_garbage(list(b._succ))
+    else:
+        raise ValueError(name)
